@@ -95,9 +95,29 @@ func (t *Ty) GoExpr() string {
 	case "map":
 		return "map[" + t.Key.GoExpr() + "]" + t.Elem.GoExpr()
 	case "struct":
+		if structs[t.Sid].Anonymous {
+			return structs[t.Sid].literal()
+		}
 		return t.Name
 	}
 	panic("bad ty")
+}
+
+// literal: the struct type written out (anonymous struct types)
+func (s *Struct) literal() string {
+	var b strings.Builder
+	b.WriteString("struct {")
+	for i, f := range s.Fields {
+		if i > 0 {
+			b.WriteString("; ")
+		}
+		fmt.Fprintf(&b, "%s %s", f.Name, f.Ty.GoExpr())
+		if f.Tag != "" {
+			fmt.Fprintf(&b, " `%s`", f.Tag)
+		}
+	}
+	b.WriteString("}")
+	return b.String()
 }
 
 func (t *Ty) Proto() string {
@@ -116,6 +136,9 @@ func (t *Ty) Proto() string {
 	case "map":
 		return "M(" + t.Key.Proto() + "," + t.Elem.Proto() + ")"
 	case "struct":
+		if structs[t.Sid].Anonymous {
+			return fmt.Sprintf("S:%d:", t.Sid)
+		}
 		return fmt.Sprintf("S:%d:%s", t.Sid, t.Name)
 	}
 	panic("bad ty")
@@ -1361,6 +1384,30 @@ func groupBoom(seed int64, g, m int) {
 	}
 }
 
+// fields of anonymous struct type (`X struct{...}`): the annotation may give them any name, bare or
+// package-qualified (D23: the qualified spelling used to be rejected), at every position
+func groupAnon() {
+	an := newStruct("anon")
+	an.Anonymous = true
+	an.add("V", prim("int32"), 1, "default")
+	an.add("S", prim("string"), 2, "optional")
+	ref := func(ann string) *Ty { t := sref(an); t.Ann = ann; return t }
+	h := newStruct("anon")
+	h.add("X", ref("Item"), 1, "default")
+	h.add("N", prim("int32"), 2, "default")
+	h = newStruct("anon")
+	h.add("X", ref("base.Item"), 1, "default")
+	h.add("N", prim("int32"), 2, "default")
+	h = newStruct("anon")
+	h.add("L", list(ref("base.Item")), 1, "default")
+	h.add("S", set(ptr(ref("t.Item"))), 2, "default")
+	h = newStruct("anon")
+	h.add("M", mapOf(prim("string"), ptr(ref("str.Item"))), 1, "default")
+	h.add("P", ptr(ref("i.Item")), 2, "optional")
+	h = newStruct("anon")
+	h.add("M", mapOf(ptr(ref("Item")), list(ref("a.B"))), 1, "default")
+}
+
 // ---------- emission ----------
 
 func emit(outDir string) {
@@ -1370,6 +1417,22 @@ func emit(outDir string) {
 	g.WriteString("type E1 int64\ntype E2 int64\ntype E3 int64\ntype NB uint8\ntype C1 int\n\n")
 	var u strings.Builder
 	for _, s := range structs {
+		if s.Anonymous {
+			// no declaration: the type is written out wherever it is used
+			fmt.Fprintf(&u, "struct %d - 0\n", s.Sid)
+			for _, f := range s.Fields {
+				exp := 1
+				if f.Name[0] < 'A' || f.Name[0] > 'Z' {
+					exp = 0
+				}
+				tagh := "-"
+				if f.Tag != "" {
+					tagh = hex.EncodeToString([]byte(f.Tag))
+				}
+				fmt.Fprintf(&u, "field %d %s %d 0 %s %s -\n", s.Sid, f.Name, exp, f.Ty.Proto(), tagh)
+			}
+			continue
+		}
 		fmt.Fprintf(&g, "type %s struct {\n", s.Name)
 		init := 0
 		if s.HasInit {
@@ -1442,8 +1505,12 @@ func emit(outDir string) {
 			}
 		}
 		sort.Slice(fs, func(i, j int) bool { return fs[i].id < fs[j].id })
+		tyExpr := s.Name
+		if s.Anonymous {
+			tyExpr = s.literal()
+		}
 		fmt.Fprintf(&g, "\t\t{Sid: %d, Name: %q, Type: reflect.TypeOf(%s{}), Accept: %v, Holder: %v, Group: %q, Writer: %d, Boom: %v, Fields: []UField{",
-			s.Sid, s.Name, s.Name, s.Accept, holder, s.Group, s.Writer, s.Boom)
+			s.Sid, s.Name, tyExpr, s.Accept, holder, s.Group, s.Writer, s.Boom)
 		for _, f := range fs {
 			fmt.Fprintf(&g, "{%q, %d, %d}, ", f.name, f.id, f.idx)
 		}
@@ -1490,6 +1557,7 @@ func main() {
 	groupGraphs(8, 7)
 	groupRandom(*nrand, *depth)
 	groupBoom(*seed, 4, 5)
+	groupAnon()
 	emit(*out)
 	fmt.Printf("gentypes: %d structs\n", len(structs))
 }
